@@ -14,6 +14,7 @@ def dispatch (s : DState) (line : String) : DState × String :=
     else if e == "bld" then
       let (b, o) := engBld s.bld args
       ({ s with bld := b }, o)
+    else if e == "e2e" then engE2E s args
     else if e == "exp" then
       let (x, o) := engExp s.exp args
       ({ s with exp := x }, o)
@@ -24,6 +25,9 @@ def dispatch (s : DState) (line : String) : DState × String :=
       | "decm" :: rest => chkDec false s rest
       | "c17" :: rest => (s, chkC17 rest)
       | "bld" :: rest => (s, chkBld rest)
+      | "e2e" :: rest =>
+        let (d, o) := chkE2E s.e2eSpecDom rest
+        ({ s with e2eSpecDom := d }, o)
       | "exp" :: rest =>
         let (t, o) := chkExp s.specExp rest
         ({ s with specExp := t }, o)
